@@ -4,7 +4,8 @@ C06 - wildcard and predicate steps select exactly the matching elements, in orde
 Lean: Model/XPath.lean (star / condition branches of _find), Props/C06.lean
 B stream : xp.get (get / first / item access) on selecting paths of every form
 C evaluator: list-comprehension oracle for P[*]/f, P/f, P[k=v]/f, P/k[text()=v]/../f, P[k!=v]/f, P[k~v]/f
-  (quoted and unquoted v), misses, first's single-match unwrapping; chained selections.
+  (quoted and unquoted v), misses, first's single-match unwrapping; chained selections P[k1 op v1]/items[k op v]/f
+  (nested list of per-parent selections, get / item access / repeated get, identity of the selected values).
 """
 import copy
 
@@ -15,30 +16,38 @@ from harness.props import xpath_common as X
 MANIFEST = dict(
     category="proof",
     technique="Lean 4 theorems over a hand-written model of the xpath engine + differential correspondence with the implementation",
-    text="Lean (model of n0dict._find with the fix patches C06-a and C06-c applied), for a list of dict records stored under a "
-         "plain key `name` of the root dict, every list length and every mix of present/absent fields: C06_star_partial "
-         "(`name[*]/f` and the shorthand `name/f` return, through get and item access, exactly [r[f] for r in rs if f in r] in "
-         "list order, the default / IndexError when that is empty, tree unchanged), C06_first_unwrap_partial + C06_firstOf_cases "
-         "(first returns the single match itself, the list for several, the default for none), C06_eq_partial, C06_ne_partial, "
-         "C06_contains_partial (`name[k=v]/f`, `name[k!=v]/f`, `name[k~v]/f`, operator written `=`/`==`/`~`/`~~`, literal bare or in "
-         "single or double quotes, the empty literal included: f of exactly the records that have k and whose k equals / differs "
-         "from / contains v; text fields compared as text, int fields as numbers), C06_text_form_equiv_partial "
-         "(`name/k[text() op v]/../f` returns what `name[k op v]/f` returns for get, item access and first), all instances of "
-         "C06_pred_partial. For a record list anywhere in the tree: C06_star_spelled (token level: for every token list that "
-         "spells the position of the list - plain keys, index steps in any spelling - _find on toks+['[*]',f] and toks+[f] finds "
-         "exactly that list comprehension) and C06_implicit_star_path_partial (`P/f` for the canonical path P of any position, "
-         "through get, item access and first). Proved by induction over the record list through the engine's fan-out loop, the condition branch, "
-         "the text() branch and the '..' step that re-resolves the found string from the root. Hypotheses: plain field names "
-         "(no path or operator characters, k not starting with `contains`, k not `text()`), plain literal (no blanks, quotes, "
-         "brackets, /, =, ~, *, ?, %; not true()/false()), no float value of k and a non-ASCII literal only against non-numeric k. "
-         "Stated, not proved (carried by the correspondence and the oracle evaluator): C06_star_stmt (the explicit `P[*]/f` "
-         "through get for an arbitrary path string P), C06_pred_stmt (the predicate forms for a record list at an arbitrary path), C06_chained_stmt (chained selections; refuted on the pinned tree by "
-         "the counter-example theorem C06_chained_cex, known finding C06-b). Positive examples for the two repaired findings "
-         "(C06_numeric_example, C06_empty_literal_example). The model of the resolver is compared with the real code on all "
-         "selecting forms at depth 0-3, with string, int, bool, float and None fields, missing fields, duplicates, occurring and "
-         "non-occurring literals, the empty literal; the statement (list-comprehension oracle, numeric fields compared as "
-         "numbers) is executed on the implementation.",
-    note="unsuppressed verdicts of the evaluator: every non-chained form; chained selections are the known finding C06-b.",
+    text="Lean (model of n0dict._find with the fix patches C06-a, C06-c, C06-b and C06-e applied), for the list of dict records at "
+         "ANY position of a dict-rooted tree (canonical path P of keys and indexes, as xpath() prints it), every list length and "
+         "every mix of present/absent fields: C06_star (`P[*]/f` and the shorthand `P/f` return, through get, item access and "
+         "first, exactly [r[f] for r in rs if f in r] in list order; the default / IndexError when that is empty; first unwraps a "
+         "single match - C06_firstOf_cases; tree unchanged), C06_pred (`P[k op v]/f` and `P/k[text() op v]/../f`, operator written "
+         "`=`/`==`/`!=`/`~`/`~~`, literal bare or in single or double quotes, the empty literal included: f of exactly the "
+         "records that have k and whose k passes the comparison, for get, item access and first - hence the two forms agree), "
+         "C06_eq_ne_contains (the three operators against the independent references: text fields compared as text, int fields "
+         "as numbers, `~` = substring), C06_chained (`P[k1 op v1]/items[k2 op v2]/f` returns, through get and item access, the "
+         "nested list of per-parent selections: for every outer record that passes the outer test, in order, the list of f of its "
+         "`items` records that pass the inner test; parents with no `items`, an empty `items` or no inner match are left out; the "
+         "default / IndexError when nothing is selected at all). The same for the paths written relative to the root without the "
+         "leading `/` when the list is stored under a key of the root (C06_star_partial, C06_pred_partial, C06_eq_partial, "
+         "C06_ne_partial, C06_contains_partial, C06_text_form_equiv_partial, C06_first_unwrap_partial), and at token level for "
+         "every token list that spells the position of the list - index steps in any spelling (C06_star_spelled). Proved by "
+         "induction over the record list through the engine's fan-out loop, the condition branch, the text() branch and the '..' "
+         "step: the found text of the walk (find_walk/SpellsF) is the canonical path of P[j]/k, '..' re-splits it without "
+         "stripping, drops the last piece and resolves P[j] again from the root (sel2_up_record); with fix C06-b it continues "
+         "with the canonical path of P[j], which is what makes the inner predicate of a chained selection come back to the right "
+         "parent. The tokenisation of every path text used is proved (sel2_tokenize: texts made of /key and [text] pieces). "
+         "Hypotheses: plain field names (no path or operator characters, k not starting with `contains`, k not `text()`), plain "
+         "literal (no blanks, quotes, brackets, /, =, ~, *, ?, %; not true()/false()), no float value of k and a non-ASCII "
+         "literal only against non-numeric k (model scope guard); for chained selections `items`, where an outer record has it, "
+         "is a list of dict records. No statement is left open; positive examples for the four repaired findings "
+         "(C06_numeric_example, C06_empty_literal_example, C06_chained_example, C06_empty_inner_example). Differential only: "
+         "first on chained selections (return_lists=False unwraps single matches on both levels), other spellings of P than the "
+         "canonical one for the predicate forms. The model of the resolver is compared with the real "
+         "code on all selecting forms and chained selections at depth 0-3, with string, int, bool, float and None fields, missing "
+         "fields, duplicates, occurring and non-occurring literals, the empty literal, empty inner lists; the statement "
+         "(list-comprehension oracle, numeric fields compared as numbers; nested per-parent lists for chained selections, also "
+         "through item access and on a repeated lookup) is executed on the implementation.",
+    note="unsuppressed verdicts of the evaluators: every form, chained selections included (no open finding).",
     design_ref="5/C06",
 )
 
@@ -59,6 +68,28 @@ def gen_records(rng, numeric=False, nested=False):
                 r[f] = rng.choice(SVALS)
         if nested and rng.random() < 0.7:
             r["items"] = gen_records(rng, numeric=False, nested=False)
+        recs.append(r)
+    return recs
+
+
+def gen_orders(rng):
+    """outer records that share few key values, each with a (possibly empty / missing) inner list whose records share
+    few key values too: chained selections then select in several parents"""
+    kv = rng.sample(SVALS, 2)
+    iv = rng.sample(SVALS, 3)
+    recs = []
+    for _ in range(rng.choice([1, 2, 3, 4, 5])):
+        r = {}
+        for f in rng.sample(FIELDS, rng.choice([2, 3, 4])) + (["id"] if rng.random() < 0.85 else []):
+            r[f] = rng.choice(kv)
+        if rng.random() < 0.85:
+            items = []
+            for _ in range(rng.choice([0, 1, 2, 3, 4])):
+                it = {}
+                for f in rng.sample(FIELDS, rng.choice([2, 3, 4])) + (["sku"] if rng.random() < 0.85 else []):
+                    it[f] = rng.choice(iv)
+                items.append(it)
+            r["items"] = items
         recs.append(r)
     return recs
 
@@ -136,10 +167,7 @@ def make_xp(P, form, k, f, vlit):
 
 
 def classify(c):
-    """known-finding class of a case (None = inside the scope where the property must hold)"""
-    recs = X.get_at(c["tree"], c["pos"])
-    if c.get("chained"):
-        return "C06-b"
+    """known-finding class of a case (None = inside the scope where the property must hold); no open finding"""
     return None
 
 
@@ -180,26 +208,58 @@ def check_select(c):
     return None
 
 
-def check_chained(c):
-    """orders[id=X]/items[sku=Y]/q : nested list of per-parent selections"""
-    o = X.convert(c["tree"], c["mode"])
-    recs = X.get_at(c["tree"], c["pos"])
+OPS = {"eq": "=", "ne": "!=", "contains": "~"}
+
+
+def passes(op, x, v):
+    if op == "eq":
+        return field_eq(x, v)
+    if op == "ne":
+        return not field_eq(x, v)
+    return isinstance(x, str) and v in x
+
+
+def chained_oracle(recs, c):
+    """P[k1 op1 v1]/items[k op v]/f : nested list of per-parent selections (parents with nothing selected left out)"""
     want = []
     for r in recs:
-        if r.get("id") == c["v1"] and "items" in r:
-            sel = [it[c["f"]] for it in r["items"] if it.get(c["k"]) == c["v"] and c["f"] in it]
+        if c["k1"] in r and passes(c.get("op1", "eq"), r[c["k1"]], c["v1"]) and "items" in r:
+            sel = [it[c["f"]] for it in r["items"] if c["k"] in it and passes(c.get("op", "eq"), it[c["k"]], c["v"]) and c["f"] in it]
             if sel:
                 want.append(sel)
+    return want
+
+
+def check_chained(c):
+    o = X.convert(c["tree"], c["mode"])
+    recs = X.get_at(c["tree"], c["pos"])
+    want = chained_oracle(recs, c)
     g = core.call(lambda: o.get(c["xp"], "DFLT"))
     if g[0] != "ok":
         return {"get_raised": g[1]}
-    flat_want = want
+    it = core.call(lambda: o[c["xp"]])
     if not want:
-        return None if g[1] == "DFLT" else {"want": "miss", "got": repr(g[1])[:200]}
+        if g[1] != "DFLT":
+            return {"want": "miss", "got": repr(g[1])[:200]}
+        if it[0] == "ok":
+            return {"want": "miss", "item_access_returned": repr(it[1])[:200]}
+        return None
     got = g[1]
     norm = [list(x) if isinstance(x, list) else x for x in got] if isinstance(got, list) else got
-    if norm != flat_want and norm != [x for s in flat_want for x in s]:
-        return {"want": flat_want, "got": repr(got)[:200]}
+    if norm != want:
+        return {"want": want, "got": repr(got)[:200]}
+    # the selected values are the objects stored in the tree (of the right parent)
+    src = [itm[c["f"]] for r in X.get_at(o, c["pos"]) if isinstance(r, dict) for itm in r.get("items", []) if c["f"] in itm]
+    for sel in got:
+        for x in sel:
+            if not any(x is y for y in src):
+                return {"value_not_from_tree": repr(x)}
+    if it[0] != "ok" or [list(x) if isinstance(x, list) else x for x in it[1]] != want:
+        return {"want": want, "item_access": repr(it)[:200]}
+    # the same lookup again on the same object (the resolver keeps no state between lookups)
+    g2 = core.call(lambda: o.get(c["xp"], "DFLT"))
+    if g2[0] != "ok" or [list(x) if isinstance(x, list) else x for x in g2[1]] != want:
+        return {"want": want, "second_get": repr(g2)[:200]}
     return None
 
 
@@ -285,23 +345,37 @@ def run(ctx):
         xp = make_xp(P, form, k, f, lit(rng, vs, q))
         cases.append({"tree": tree, "mode": rng.choice(["n0", "wrap"]), "pos": pos, "form": form, "k": k, "f": f, "v": v if isinstance(v, str) else vs, "xp": xp})
     ctx.evaluate("select", cases, check_select, in_known=in_known, nontrivial=lambda c: len(X.get_at(c["tree"], c["pos"])) > 1)
-    for _ in range(ctx.budget(200, 5000)):
-        recs = gen_records(rng, nested=True)
-        tree, pos = wrap_at_depth(rng, recs, rng.choice([0, 1]))
-        P = X.render_rel(tree, pos)
-        ids = [r["id"] for r in recs if "id" in r and "items" in r]
+    for _ in range(ctx.budget(400, 8000)):
+        recs = gen_orders(rng) if rng.random() < 0.65 else gen_records(rng, nested=True, numeric=rng.random() < 0.2)
+        tree, pos = wrap_at_depth(rng, recs, rng.choice([0, 1, 2, 3]))
+        P = X.render_rel(tree, pos) if rng.random() < 0.6 else X.render(rng, tree, pos)
+        k1 = "id" if rng.random() < 0.6 else rng.choice(FIELDS)
+        ids = [r[k1] for r in recs if k1 in r and "items" in r]
         v1 = rng.choice(ids) if ids and rng.random() < 0.8 else rng.choice(SVALS)
-        its = [it for r in recs for it in r.get("items", []) if it]
-        if its and rng.random() < 0.8:
+        if isinstance(v1, float):
+            v1 = "1"
+        op1 = rng.choice(["eq", "eq", "eq", "ne", "contains"])
+        op = rng.choice(["eq", "eq", "eq", "ne", "contains"])
+        sel_par = [r for r in recs if k1 in r and passes(op1, r[k1], str(v1))]
+        its = [it for r in (sel_par if rng.random() < 0.8 else recs) for it in r.get("items", []) if it]
+        if its and rng.random() < 0.85:
             it = rng.choice(its)
-            k = rng.choice(list(it))
+            k = "sku" if "sku" in it and rng.random() < 0.5 else rng.choice(list(it))
             v = it[k]
             f = rng.choice(list(it))
         else:
             k, f, v = rng.choice(FIELDS), rng.choice(FIELDS), rng.choice(SVALS)
-        xp = "%s[id=%s]/items[%s=%s]/%s" % (P, v1, k, v, f)
-        chained.append({"tree": tree, "mode": "n0", "pos": pos, "chained": True, "v1": v1, "k": k, "f": f, "v": v, "xp": xp, "form": "chained"})
-    ctx.evaluate("chained", chained, check_chained, in_known=in_known)
+        q1, q2 = rng.choice(["", "s", "d"]), rng.choice(["", "s", "d"])
+        v1s, vs = str(v1), str(v)
+        if " " in v1s and q1 == "":
+            q1 = "d"
+        if " " in vs and q2 == "":
+            q2 = "s"
+        xp = "%s[%s%s%s]/items[%s%s%s]/%s" % (P, k1, OPS[op1], lit(rng, v1s, q1), k, OPS[op], lit(rng, vs, q2), f)
+        chained.append({"tree": tree, "mode": rng.choice(["n0", "wrap"]), "pos": pos, "chained": True, "k1": k1, "op1": op1, "v1": v1s,
+                        "k": k, "op": op, "f": f, "v": vs, "xp": xp, "form": "chained"})
+    ctx.evaluate("chained", chained, check_chained, in_known=in_known,
+                 nontrivial=lambda c: len(chained_oracle(X.get_at(c["tree"], c["pos"]), c)) > 0)
     rng = ctx.rng("kinds")
     lk = [dict(xp=c["xp"], tree=c["tree"], mode=c["mode"], kind=rng.choice("gif"), d=rng.choice([None, "D"])) for c in cases + chained]
 
@@ -328,6 +402,6 @@ def run(ctx):
     ctx.extra["forms"] = forms
     ctx.extra["assumptions"] = [
         "record fields are plain names; literals are taken from / absent from the data",
-        "theorems: record list under a plain key of the root; a list at a deeper path and chained selections are covered by B and C only",
-        "the implementation under test carries the fix patches C06-a and C06-c",
+        "theorems: the record list at any position (canonical path), chained selections with `items` a list of dict records; other spellings of the prefix, first() on chained selections and list roots are covered by B and C only",
+        "the implementation under test carries the fix patches C06-a, C06-c, C06-b and C06-e",
     ]
